@@ -358,6 +358,7 @@ pub struct SimConn {
     pub world: Shared,
 }
 
+#[derive(Clone)]
 pub struct SimOpener {
     pub world: Shared,
 }
